@@ -161,6 +161,11 @@ theorem async_stderr_no_deadlock (K : Nat) (hK : 1 ≤ K) (prog : List Bool) :
   simp [Process.measure, initState] at this
   omega
 
+/-- ripgrep's own configuration (`async_stderr(true)`, a source-anchored constant) is the safe one. -/
+theorem ripgrep_stderr_no_deadlock (K : Nat) (hK : 1 ≤ K) (prog : List Bool) :
+    ∀ s, Reach K ripgrepAsyncStderr (initState prog) s → ¬ Done s → ∃ t, Step K ripgrepAsyncStderr s t :=
+  (async_stderr_no_deadlock K hK prog).2
+
 /-- The foil: without the drainer (`async_stderr(false)`), for every capacity there is a child — one that
 writes `K + 1` bytes to stderr — and a schedule after which nobody can move although the child has not
 exited: the reader gave up waiting for stdout and `close` waits for the child, the child waits for
